@@ -444,6 +444,18 @@ def gen_project(rng, idx):
             files[f"source/includes/extracts-{nm}.yaml"] = f"ref: {nm}-x\ninherit:\n  file: extracts-base.yaml\n  ref: base-x\n...\n"
     for nm in "abc":
         files[f"source/images/{nm}.png"] = {"$b": f"\x89PNG\r\n\x1a\n{nm}"}
+    if rng.random() < 0.6:
+        # facets at several directory levels: a page gets the facets of its own directory plus, for every category that
+        # directory does not set, those of the directories above - in an order that must not depend on string hashing
+        pool = [("genre", "tutorial"), ("genre", "reference"), ("target_product", "atlas"), ("target_product", "compass"), ("target_product", "drivers"),
+                ("programming_language", "go"), ("programming_language", "java"), ("programming_language", "c")]
+
+        def toml_of(pairs):
+            return "".join(f'[[facets]]\ncategory = "{c}"\nvalue = "{v}"\n\n' for c, v in pairs)
+        files["source/facets.toml"] = toml_of(rng.sample(pool, rng.randint(3, 6)))
+        for d in ("sub", "sub/deep", "z"):
+            if rng.random() < 0.6 and any(n.startswith(d + "/") for n in names):
+                files[f"source/{d}/facets.toml"] = toml_of(rng.sample(pool, rng.randint(1, 2)))
     return files
 
 
